@@ -27,6 +27,9 @@ def run(ctx, db, tier):
     queue_type(ctx, db)
     C09.push_linear(ctx, db, 'C14.queue-push', 'cocls::queue::push')
     C09.pop_linear(ctx, db, 'C14.queue-pop', 'cocls::queue::pop')
+    from . import C13
+    C13.done_means_returned(ctx, db, 'C14.finished-means-returned')
+    charge_runs_now(ctx, db)
 
 
 def may_throw(ev):
@@ -241,3 +244,31 @@ def queue_type(ctx, db):
         mx = next((x for x in c['fields'] if x['name'] == '_mx'), None)
         t = (mx or {}).get('canon_type') or ''
         ctx.ob(rid, 'cocls::queue<GenCallback*>', c['loc'], 'std::mutex' in t, 'lock type of the completion queue is %s' % t, desc='completion queue is not protected by std::mutex')
+
+
+def charge_runs_now(ctx, db):
+    """GenCallback::charge re-arms a source through next_awt::subscribe.  The aggregator's controller blocks its thread in the destructor until
+    every re-armed source has reported: a source that was only put on the thread's ready queue never runs while that thread is blocked"""
+    rid = ctx.rule('C14.charge-runs-source-now', 'PATHS', 'generator::next_awt::subscribe: the handle obtained from next_async is resumed on the spot (coroutine_handle::resume) exactly once on every '
+                   'path and never handed to the ready queue (coro_queue::resume / push): the aggregator\'s drain blocks the thread that would have to drain that queue', floor=1)
+    T = htracer(db)
+    seen = set()
+    for f in db.need('cocls::generator::next_awt::subscribe'):
+        if f['key'] in seen:
+            continue
+        seen.add(f['key'])
+        trs = [t for t in T.traces(f) if live(t)]
+        ctx.paths(rid, len(trs))
+        bad = None
+        for tr in trs:
+            ask = index_of(tr, callee_is('cocls::generator::promise_type::next_async'))
+            now = [c for c in tr[ask + 1:] if c.k == 'call' and norm(c.get('callee')) in ('std::coroutine_handle::resume', 'std::coroutine_handle::operator()')]
+            later = [c for c in tr[ask + 1:] if c.k == 'call' and (norm(c.get('callee')) in ('cocls::coro_queue::resume', 'cocls::coro_queue::push') or norm(c.get('callee') or '').startswith('cocls::coro_queue::queue_impl::push'))]
+            if ask < 0:
+                bad = bad or ('the generator is not asked (next_async)', tr)
+            elif later:
+                bad = bad or ('the source is handed to %s instead of being resumed: it does not run while the draining thread is blocked' % norm(later[0].get('callee')), tr)
+            elif len(now) != 1:
+                bad = bad or ('the source is resumed %d times' % len(now), tr)
+        ctx.ob(rid, f, f['key'], bad is None and bool(trs), 'subscribe resumes the asked generator on the spot' + ('' if not bad else ' -- ' + bad[0]), desc=bad[0] if bad else None,
+               trace=fmt_trace(bad[1]) if bad else None)
